@@ -4,6 +4,9 @@
 #include <semaphore.h>
 #include <pthread.h>
 #include <vector>
+#include <map>
+#include <tuple>
+#include <string>
 #include <functional>
 #include "util.hpp"
 
@@ -14,15 +17,23 @@ namespace jv {
 // whether to hand the CPU to another runnable task. Decisions come from the
 // PRNG, or from an explicit switch list when replaying a minimised schedule.
 struct Scheduler {
-    struct Task { pthread_t th; sem_t sem; std::function<void()> body; bool finished = false; uint64_t yields = 0; Scheduler* s; int id; };
+    struct Task { pthread_t th; sem_t sem; std::function<void()> body; bool finished = false; uint64_t yields = 0; Scheduler* s; int id; int last_step = -1000000; uint64_t step_yields = 0; };
     std::vector<Task*> tasks;
     int current = -1;
     Rng rng;
     uint32_t p_switch_log2 = 6;                 // switch with probability 2^-k at each yield point
-    bool use_list = false;                      // replay: switch exactly at the listed global yield numbers
-    std::vector<std::pair<uint64_t, int>> list; // (global yield number, target task)
-    size_t list_pos = 0;
-    std::vector<std::pair<uint64_t, int>> taken; // recorded switches of this run
+    // Explicit schedules. A schedule is a list of tokens, each one decision:
+    //   "S:<t>"        task t runs first
+    //   "<T>@<s>.<k>:<t>"  at the k-th yield point inside step s of task T (step = the plan op the task is executing, counts are
+    //                      task-local) the CPU goes to task t
+    //   "F<T>:<t>"     when task T finishes, task t continues
+    // Task-local (step, yield) positions do not depend on the interleaving (each task's control flow is its own), so removing one
+    // decision leaves the others meaningful, and removing a plan op only renumbers the steps after it: that is what lets ddmin
+    // shrink a schedule and the plan under it. Missing decisions default to "no switch" / "lowest-numbered unfinished task".
+    bool use_list = false;
+    std::map<std::tuple<int, int, uint64_t>, int> list_sw; std::map<int, int> list_fin; int list_start = 0;
+    std::vector<std::string> taken;             // decisions of this run, as tokens
+    void set_list(const std::vector<std::string>& tokens);
     uint64_t global_yield = 0, switches = 0, hook_yields = 0, cb_yields = 0;
     std::function<void(int, int)> on_switch;   // (from task, to task), called on the switching thread
     sem_t done_sem;
@@ -38,6 +49,7 @@ struct Scheduler {
 };
 extern Scheduler* g_sched;
 extern thread_local uint64_t tl_hook_calls;   // H1 hook invocations on this thread (a measure of work: one per field multiplication)
+extern thread_local const int* tl_step_ptr;   // the step (plan op index) the calling task is executing; read at yield points
 extern void (*g_yield_extra)(void);   // extra action at every H1 yield (dispatch flipping)
 
 } // namespace jv
